@@ -830,6 +830,16 @@ class IrGenerator:
             # construct a case when statement if possible
             #
 
+            ctx = ir.StatemachineContext._singleton
+
+            if ctx is not None and ctx.at_start():
+                # The case statement is added to its block after the branches
+                # are converted (or not at all, when the attempt is given up).
+                # Mark the first state as used, so await/while statements in
+                # a branch do not claim it as if they were the first
+                # statement of the coroutine.
+                ctx.first_block().append(ir.Nop())
+
             case_when = try_gen_case_when(inp, open_blocks)
 
             if case_when is not None:
